@@ -440,6 +440,23 @@ def gen_inx(g, depth):
         elif m < 0.24:
             b['next'] = True
         x['batch'] = b
+    # sort_expr / reverse_expr (expressions evaluated per rendering) and batch parameters given by variable name
+    if 'sort' in x and r.random() < 0.3:
+        del x['sort']
+        x['sortExpr'] = r.choice([['lit', {'s': 'k'}], ['name', 'skey'], ['name', 'skey'], ['call', ['name', 'skeyf']]])
+    if r.random() < 0.25:
+        x['reverseExpr'] = r.choice([['name', 'flag'], ['not', ['name', 'flag']], ['lit', 0], ['lit', 1],
+                                     ['eq', ['name', 'bstart'], ['lit', 1]], ['call', ['name', 'f']], ['name', 'undefined1']])
+    if 'batch' in x and r.random() < 0.4:
+        names = []
+        for pname in ('start', 'end', 'size', 'overlap', 'orphan'):
+            if r.random() < 0.35:
+                names.append([pname, r.choice(['b' + pname, 'b' + pname, 'bstr', 'bfn', 'undefined2'])])
+                x['batch'].pop(pname, None)
+        if names:
+            x['names'] = names
+            if not any(n in x['batch'] for n in ('start', 'size', 'end')) and not any(p in ('start', 'size', 'end') for p, _ in names):
+                x['batch']['size'] = 2
     if r.random() < 0.15:
         opts['noPush'] = True
     if r.random() < 0.3:
@@ -521,11 +538,18 @@ def print_block(b):
             a.append('skip_unauthorized')
         if x.get('sort'):
             a.append('sort=%s' % x['sort'])
+        if x.get('sortExpr'):
+            a.append('sort_expr="%s"' % expr_src(x['sortExpr']))
         if x.get('reverse'):
             a.append('reverse')
+        if x.get('reverseExpr'):
+            a.append('reverse_expr="%s"' % expr_src(x['reverseExpr']))
         bt = x.get('batch') or {}
+        byname = dict(x.get('names') or [])
         for n in ('start', 'end', 'size', 'orphan', 'overlap'):
-            if n in bt:
+            if n in byname:
+                a.append('%s=%s' % (n, byname[n]))
+            elif n in bt:
                 a.append('%s=%d' % (n, bt[n]))
         for n in ('previous', 'next'):
             if bt.get(n):
@@ -582,6 +606,14 @@ def gen_case(r, depth=3, robust=False):
     ns['seq'] = {'l': [g.item_val() for _ in range(r.randint(0, 4))]}
     ns['seq2'] = {'l': [g.v_obj({'p': g.simple_val(), 'k': r.choice([1, 1, 2])}) for _ in range(r.randint(0, 3))]}
     ns['m1'] = {'d': [[n, g.simple_val()] for n in ['p', 'x', 'zz']]}
+    # what sort_expr / reverse_expr / batch parameters by name refer to
+    ns['skey'] = {'s': 'k'}
+    ns['skeyf'] = g.v_fn({'s': 'k'})
+    for pname, vals in (('start', [1, 2, 3, 0]), ('end', [0, 2, 4, 9]), ('size', [1, 2, 3, 0]), ('overlap', [0, 1, 2]),
+                        ('orphan', [0, 1, 2])):
+        ns['b' + pname] = r.choice(vals)
+    ns['bstr'] = {'s': r.choice(['2', '1', '3', 'x', '', '-1'])}
+    ns['bfn'] = g.v_fn(r.choice([1, 2, {'s': '2'}]))
     # sequences with comparable sort keys `k` (ints, callables returning ints, None)
     def keyval(i, none_at):
         # None / missing keys sort first (several of them: CPython lists them in the reverse of their original order)
@@ -630,6 +662,23 @@ def gen_case(r, depth=3, robust=False):
                     else:
                         no_self_call_in_loops(part, inside or loop)
     no_self_call_in_loops(sub_blocks, False)
+    # … and at most once per level: two self-calls per level, each caught and continued, are 2^200 renderings
+    seen = [0]
+
+    def at_most_one_self_call(x):
+        if isinstance(x, list):
+            if len(x) >= 2 and x[0] == 'n' and x[1] == 'sub0':
+                seen[0] += 1
+                if seen[0] > 1:
+                    x[1] = 'f'
+            elif len(x) >= 2 and x[0] in ('name', 'under') and x[1] == 'sub0':
+                seen[0] += 1
+                if seen[0] > 1:
+                    x[1] = 'f'
+            else:
+                for y in x:
+                    at_most_one_self_call(y)
+    at_most_one_self_call(sub_blocks)
     sub_globals = [['p', g.simple_val()], ['subdef', {'s': 'SD'}]] if r.random() < 0.7 else []
     ns['sub0'] = {'T': 1}
     main_blocks = gen_blocks(g, depth, 3)
